@@ -84,6 +84,7 @@ def run(ids: list[str], props: list[str] | None, tier: str, component: bool = Fa
     for sid in ids:
         sdir = os.path.join(root, sid)
         meta = json.load(open(os.path.join(sdir, "meta.json")))
+        meta["property"] = sid.split("-")[0]          # the directory name is authoritative
         targets = props or meta.get("check_props") or [meta["property"]]
         if component:
             # every property served by the same correspondence component (they share one cached component run)
